@@ -405,7 +405,8 @@ class Result:
         json.dump(ev, open(os.path.join(EVIDENCE, self.prop + ".json"), "w"), indent=1)
         for l in self.known_lines:
             print(l)
-        for path, summary, found in self.violations:
+        # violations with a concrete failing input first: a broken proof obligation or tie for which some engine DID find an input is listed after it
+        for path, summary, found in sorted(self.violations, key=lambda v: not v[2]):
             print("VIOLATION property=%s replay=%s%s" % (self.prop, path, "" if found else " no-failing-input-found"))
             print("  " + str(summary)[:400])
         print("%s tier=%s seed=%d obligations=%d discharged=%d evaluations=%d nontrivial=%d violations=%d wall=%.1fs" % (
